@@ -238,3 +238,33 @@ Proof.
   destruct (decoded_file_is_read _ si _ e rp Hdec C1 (conj B1 B32) Hlen) as (blocks & _ & Hv & Hp & H).
   eexists. split; [exact Hv|]. split; [exact Hp|exact H].
 Qed.
+
+(* the byte reader (either byte order) and the channel reader over the same decoded file *)
+Theorem decoded_file_is_read_bytes_channels : forall file si frames e rp,
+  CS.dec_stream file = Some (si, frames, CS.EndEof) ->
+  1 <= A.si_channels si -> 1 <= A.si_bps si <= 32 ->
+  N.of_nat (length (concat frames)) < 2 ^ 36 ->
+  exists blocks, frames = map CS.interleave_frame blocks /\
+    let F := file_of_blocks blocks (A.si_channels si) (A.si_bps si) (if A.si_total si =? 0 then None else Some (A.si_total si)) e rp in
+    RS.pcm_bytes F = Ser.ser e (Ser.bytes_per_sample (A.si_bps si)) (concat frames) /\
+    (forall ops, RS.no_bseek ops -> Forall RS.bop_ok (snd (FlacReaders.Seek.byte_run F ops)) ->
+      let atr := map (RS.abs_b F) (snd (FlacReaders.Seek.byte_run F ops)) in
+      Forall (RS.cur_ok (RS.pcm_bytes F)) atr /\ RS.chained 0 atr (RS.bpos F (fst (FlacReaders.Seek.byte_run F ops))) /\
+      RS.exactly_once (RS.pcm_bytes F) atr) /\
+    (forall ops c, (c < N.to_nat (A.si_channels si))%nat -> RS.no_cseek ops -> Forall RS.cop_ok (snd (FlacReaders.Seek.chan_run F ops)) ->
+      let atr := map (RS.abs_c F c) (snd (FlacReaders.Seek.chan_run F ops)) in
+      Forall (RS.cur_ok (RS.chan_pcm F c)) atr /\ RS.chained 0 atr (RS.cpos (fst (FlacReaders.Seek.chan_run F ops))) /\
+      RS.exactly_once (RS.chan_pcm F c) atr /\ Forall (RS.chan_shape F) (snd (FlacReaders.Seek.chan_run F ops))) /\
+    (forall c, (c < N.to_nat (A.si_channels si))%nat -> forall i, (i < N.to_nat (RS.total_frames F))%nat ->
+      nth_error (RS.chan_pcm F c) i = nth_error (concat frames) (i * N.to_nat (A.si_channels si) + c)).
+Proof.
+  intros file si frames e rp Hd Hch Hbps Hlen.
+  destruct (decoded_file_is_read file si frames e rp Hd Hch Hbps Hlen) as (blocks & Efr & Hv & Hp & _).
+  exists blocks. split; [exact Efr|]. cbv zeta in *.
+  set (F := file_of_blocks blocks (A.si_channels si) (A.si_bps si) (if A.si_total si =? 0 then None else Some (A.si_total si)) e rp) in *.
+  split; [rewrite FlacReaders.Props_C07.C07_bytes_vs_samples, Hp; reflexivity|].
+  split; [intros ops Hns Hops; apply FlacReaders.Props_C07.C07_byte_reader; assumption|].
+  split; [intros ops c Hc Hns Hops; apply FlacReaders.Props_C07.C07_channel_reader; assumption|].
+  intros c Hc i Hi. destruct (FlacReaders.Props_C07.C07_channels_deinterleaved F c Hv Hc) as (_ & _ & Hn).
+  rewrite <- Hp. apply Hn. exact Hi.
+Qed.
